@@ -50,6 +50,7 @@ func loadCatalogue(verif string) ([]Mutant, error) {
 
 func dropCaches(p *Prog) {
 	regCache.Delete(p)
+	parseVerdictCache.Delete(p)
 	walkCache.Delete(walkKey{p, nil})
 }
 
